@@ -87,6 +87,9 @@ def run(ctx):
             pairs += [(d, "([0][parent()])+([1])"), (d, "(([1])+([0][parent()]))+([1])"),
                       # positions named from both ends in one collector: deletions must not depend on how an index was spelled
                       (d, "([0])+([-1])"), (d, "([-1])+([0])"), (d, "([-2])+([1])+([0])")]
+        # slices met beneath ** / * also by Arrays they do not reach into (an empty slice of an empty Array)
+        if any(n["k"] == "seq" and not n["kids"] for n in d):
+            pairs += [(d, "**[-2:5]"), (d, "**[0:1]"), (d, "*[-1:-1]"), (d, "**[-1:-1]")]
         # the same for a list held under a key
         for i, n in enumerate(d):
             if n["k"] == "seq" and n["par"] == 1 and root["k"] == "map" and len(n["kids"]) >= 2:
